@@ -45,10 +45,10 @@ const (
 	NewlineExpr Kind = "newline-expr"
 	// CommentExpr is Comment restricted in the same way.
 	CommentExpr Kind = "comment-expr"
-	Paren   Kind = "paren"
-	Rename  Kind = "rename"
-	CRLF    Kind = "crlf"
-	Shift   Kind = "shift"
+	Paren       Kind = "paren"
+	Rename      Kind = "rename"
+	CRLF        Kind = "crlf"
+	Shift       Kind = "shift"
 )
 
 // Kinds lists all mutators; the cheap token-level ones come first.
@@ -59,6 +59,9 @@ type Mutation struct {
 	File   string `json:"file"`
 	Offset int    `json:"offset"`
 	Detail string `json:"detail,omitempty"`
+	// Inserted lists (offset in the file before the mutation, number of bytes
+	// inserted there) for the mutators that only insert text; nil for Rename and CRLF.
+	Inserted [][2]int `json:"-"`
 }
 
 // ErrNoSite is returned when a mutator has no place to apply in the package.
@@ -98,9 +101,19 @@ func eligibleIdx(files []File) []int {
 // mutators (Paren, Rename); it may be nil for the others. The input is not
 // modified.
 func Apply(files []File, kind Kind, pick func(n int) int, imp types.Importer) ([]File, *Mutation, error) {
+	return ApplyAt(files, kind, pick, imp, nil)
+}
+
+// Focus restricts the sites of the token-level and parenthesis mutators: a site
+// is eligible if its byte range [start, end) in the named file is accepted. A
+// mutator that finds no accepted site falls back to all sites.
+type Focus func(file string, start, end int) bool
+
+// ApplyAt is Apply with an optional focus.
+func ApplyAt(files []File, kind Kind, pick func(n int) int, imp types.Importer, focus Focus) ([]File, *Mutation, error) {
 	switch kind {
 	case Comment, Newline, NewlineExpr, CommentExpr:
-		return tokenMut(files, kind, pick)
+		return tokenMut(files, kind, pick, focus)
 	case CRLF:
 		el := eligibleIdx(files)
 		if len(el) == 0 {
@@ -120,9 +133,9 @@ func Apply(files []File, kind Kind, pick func(n int) int, imp types.Importer) ([
 		p := prefixes[pick(len(prefixes))]
 		out := clone(files)
 		out[i].Src = append([]byte(p), files[i].Src...)
-		return out, &Mutation{Kind: Shift, File: files[i].Name, Detail: fmt.Sprintf("%q", p)}, nil
+		return out, &Mutation{Kind: Shift, File: files[i].Name, Detail: fmt.Sprintf("%q", p), Inserted: [][2]int{{0, len(p)}}}, nil
 	case Paren:
-		return parenMut(files, pick, imp)
+		return parenMut(files, pick, imp, focus)
 	case Rename:
 		return renameMut(files, pick, imp)
 	}
@@ -179,7 +192,7 @@ func tokenSites(src []byte, kind Kind) []int {
 	return out
 }
 
-func tokenMut(files []File, kind Kind, pick func(n int) int) ([]File, *Mutation, error) {
+func tokenMut(files []File, kind Kind, pick func(n int) int, focus Focus) ([]File, *Mutation, error) {
 	el := eligibleIdx(files)
 	if len(el) == 0 {
 		return nil, nil, ErrNoSite
@@ -189,6 +202,17 @@ func tokenMut(files []File, kind Kind, pick func(n int) int) ([]File, *Mutation,
 	for k := 0; k < len(el); k++ {
 		i := el[(start+k)%len(el)]
 		sites := tokenSites(files[i].Src, kind)
+		if focus != nil {
+			var in []int
+			for _, o := range sites {
+				if focus(files[i].Name, o, o) {
+					in = append(in, o)
+				}
+			}
+			if len(in) > 0 {
+				sites = in
+			}
+		}
 		if len(sites) == 0 {
 			continue
 		}
@@ -216,7 +240,7 @@ func tokenMut(files []File, kind Kind, pick func(n int) int) ([]File, *Mutation,
 		}
 		out := clone(files)
 		out[i].Src = splice(files[i].Src, []edit{{off, off, ins}})
-		return out, &Mutation{Kind: kind, File: files[i].Name, Offset: off}, nil
+		return out, &Mutation{Kind: kind, File: files[i].Name, Offset: off, Inserted: [][2]int{{off, len(ins)}}}, nil
 	}
 	return nil, nil, ErrNoSite
 }
@@ -308,7 +332,7 @@ func Check(files []File, imp types.Importer) (*checked, error) {
 
 func (c *checked) offset(p token.Pos) int { return c.fset.Position(p).Offset }
 
-func parenMut(files []File, pick func(n int) int, imp types.Importer) ([]File, *Mutation, error) {
+func parenMut(files []File, pick func(n int) int, imp types.Importer, focus Focus) ([]File, *Mutation, error) {
 	c, err := Check(files, imp)
 	if err != nil {
 		return nil, nil, err
@@ -329,11 +353,22 @@ func parenMut(files []File, pick func(n int) int, imp types.Importer) ([]File, *
 	if len(cands) == 0 {
 		return nil, nil, ErrNoSite
 	}
+	if focus != nil {
+		var in []cand
+		for _, k := range cands {
+			if focus(files[k.file].Name, c.offset(k.e.Pos()), c.offset(k.e.End())) {
+				in = append(in, k)
+			}
+		}
+		if len(in) > 0 {
+			cands = in
+		}
+	}
 	k := cands[pick(len(cands))]
 	s, e := c.offset(k.e.Pos()), c.offset(k.e.End())
 	out := clone(files)
 	out[k.file].Src = splice(files[k.file].Src, []edit{{s, s, "("}, {e, e, ")"}})
-	return out, &Mutation{Kind: Paren, File: files[k.file].Name, Offset: s, Detail: types.ExprString(k.e)}, nil
+	return out, &Mutation{Kind: Paren, File: files[k.file].Name, Offset: s, Detail: types.ExprString(k.e), Inserted: [][2]int{{s, 1}, {e, 1}}}, nil
 }
 
 func isGenericFunc(c *checked, e ast.Expr) bool {
